@@ -295,6 +295,37 @@ def run(F, rep):
         blk = [e for e in em if sorted(ff(tr).rendered_conds_at(e) or set()) == sorted(ff(tr).rendered_conds_at(u) or set())]
         rep.check(bool(blk), 'C06.U1', 'report|%s' % render(u)[:50], tr.where(u), 'a renaming that is applied is not reported back to the caller through changedNames', 'recorded in changedNames under the same condition')
 
+    rep.rule('C06.U2', 'where units are transferred (and possibly renamed on the way) and the referring unit child is then pointed at their name, the name is read from the very object that was transferred: '
+                       'reading it from another object (the original, while a temporary clone was transferred) leaves the reference on the old, clashing name')
+    n_u2 = 0
+    for g in F.funcs.values():
+        if g.name not in ('transferUnitsRenamingIfRequired', 'retrieveUnitsDependencies', 'flattenComponent', 'flattenUnitsImports'):
+            continue
+        for c in g.walk():
+            if c.get('k') == 'Call' and c.get('fn') == 'transferUnitsRenamingIfRequired' and not c.get('opc'):
+                moved = nth_arg(c, 2)
+                # the statement(s) after the call in the same block that read a name for setUnitAttributeReference
+                p_ = g.parent(c)
+                while p_ is not None and p_.get('k') not in ('Compound',):
+                    c_stmt, p_ = p_, g.parent(p_)
+                if p_ is None:
+                    continue
+                sibs = p_['c']
+                idx = next((i for i, x in enumerate(sibs) if any(y is c for y in walk(x))), None)
+                if idx is None:
+                    continue
+                for nxt in sibs[idx + 1: idx + 3]:
+                    for s_ in walk(nxt):
+                        if s_.get('k') == 'Call' and s_.get('fn') == 'setUnitAttributeReference':
+                            names = [x for x in walk(nth_arg(s_, 1)) if x.get('k') == 'Call' and x.get('fn') == 'name' and x.get('mc')]
+                            for nm in names:
+                                n_u2 += 1
+                                src = render(receiver(nm))
+                                rep.check(moved is not None and moved.get('k') == 'Ref' and render(moved) == src, 'C06.U2', '%s|%s' % (g.name, render(s_)[:50]), g.where(s_),
+                                          '%s transfers `%s` but points the unit child at the name of `%s`: a renaming applied during the transfer is lost' % (g.short, render(moved)[:40] if moved is not None else '?', src), 'name read from the transferred object')
+    if n_u2 < 2:
+        raise AnalysisBroken('C06.U2: transfer-then-reference sites vanished (%d found, 2 confirmed)' % n_u2)
+
     # ------------------------------------------------------------------ K
     import c11
     exempt = {
